@@ -391,6 +391,9 @@ for _p in ('C12', 'C10', 'C04'):
     _add(_p, 'DeeprobModel.Lemmas.PostOrderLemmas', 'Deeprob.PostOrder', ['walk_subtree', 'run_eq_fold', 'distinct_ids_needed'], [])
 # round 5: completeness of the modelled is_arborescence (the bound of the component search loses nothing; every document graph is GraphOK)
 _add('C13', 'DeeprobModel.Props.C13Arb', 'Deeprob.GraphIo', ['isArborescence_complete', 'isArborescence_iff', 'graphOfDoc_ok', 'cltDecode_tree_test_iff'], [])
+# round 5: validation of tables with absent ids / absent weights (Python None), as coded
+_add('C03', 'DeeprobModel.Props.C03Opt', 'Deeprob', ['checkSpnOpt_accept_iff', 'checkSpnOpt_accept_iff_valid', 'checkSpnOpt_flags_accept_iff', 'checkSpnOpt_eq',
+     'checkSpnOpt_typeError_iff', 'checkSpnOpt_reject_first', 'checkSpnOpt_eq_of_present', 'checkSpnOpt_ofNet', 'checkSpnOpt_accept_weights'], [])
 # round 5: the Gaussian leaf (density as SciPy evaluates it, normalisation, mode, raw moments of every order as integrals)
 _GT = 'Deeprob.GaussTheory'
 _add('C01', 'DeeprobModel.Props.GaussTheory', _GT, ['gauss_exp_logpdf', 'gauss_integral_one', 'gaussPdf_pos'], [])
